@@ -66,7 +66,11 @@ var openCfgs = []fix.OpenCfg{{CacheCap: -1}, {Preload: true, CacheCap: -1}}
 // it with an error, or accept it and then answer like the complete index.
 func checkCrashFile(dir string, content []byte, d *model.Data, uniq string, what string) (accepted bool, err error) {
 	for _, oc := range openCfgs {
-		p := fix.TempPath(dir, "crash") + ".updog"
+		// every crash file of a case is examined at ONE path, at which the
+		// complete index was opened before (see primePath): anything the process
+		// remembers about a path must not make a partial file acceptable
+		p := filepath.Join(dir, "examined.updog")
+		os.Remove(p)
 		if err := os.WriteFile(p, content, 0o644); err != nil {
 			return false, err
 		}
@@ -100,6 +104,27 @@ func checkCrashFile(dir string, content []byte, d *model.Data, uniq string, what
 	return accepted, nil
 }
 
+// primePath writes the COMPLETE index to the path at which the crash files
+// will be examined, and opens it once in both configurations.
+func primePath(dir string, rows []model.Row, d *model.Data) error {
+	p := filepath.Join(dir, "examined.updog")
+	if _, err := fix.BuildAt(p, rows, fix.WMemFile); err != nil {
+		return fmt.Errorf("INFRA: %v", err)
+	}
+	for _, oc := range openCfgs {
+		idx, _, err := fix.Open(p, oc)
+		if err != nil {
+			return fmt.Errorf("the complete index does not open (%s): %v", oc, err)
+		}
+		if err := fix.CheckSchema(idx, d); err != nil {
+			fix.Safe(idx.Close)
+			return err
+		}
+		fix.Safe(idx.Close)
+	}
+	return os.Remove(p)
+}
+
 type facts struct {
 	points    int
 	midpoints int // crash points strictly between first and last commit
@@ -114,6 +139,9 @@ func oracle(c *Case) (facts, error) {
 	uniq := c.Data.UniqueCol()
 	dir := fix.CaseDir()
 	defer os.RemoveAll(dir)
+	if err := primePath(dir, rows, d); err != nil {
+		return f, err
+	}
 	switch c.Mode {
 	case "file":
 		_, err := checkCrashFile(dir, c.File, d, uniq, "left-over file")
@@ -315,6 +343,14 @@ func replay(cf *evid.CaseFile) error {
 }
 
 func prelude(t *testing.T) {
+	// total number of distinct values exactly 1000k-1, 1000k, 1000k+1, 1000k+2
+	for _, n := range []int{998, 999, 1000, 1001, 1999, 2000, 2001, 3000} {
+		for w := 0; w < fix.NWriters; w++ {
+			spec := gen.DataSpec{Recipe: &gen.Recipe{N: n, Cols: []gen.ColSpec{
+				{Name: "u", Prefix: "r", Kind: gen.KUnique}, {Name: "k", Kind: gen.KConst, Prefix: "all"}}}}
+			run(t, &Case{Data: spec, Mode: "commit-points", Writer: w})
+		}
+	}
 	for _, n := range []int{0, 1, 1001, 2500} {
 		for w := 0; w < fix.NWriters; w++ {
 			spec := gen.DataSpec{Recipe: &gen.Recipe{N: n, Cols: []gen.ColSpec{
@@ -333,6 +369,13 @@ func TestQuick(t *testing.T) {
 	fix.Check(t, "kill-syscall", 25, func(rt *rapid.T) {
 		run(rt, &Case{Data: drawData(rt, 2500), Mode: "kill-syscall", Big: rapid.Bool().Draw(rt, "big"), When: rapid.IntRange(1, 40).Draw(rt, "when")})
 	})
+	// an index of several MiB (so that any copying/compaction phase spans many
+	// syscalls), killed at write-class syscalls spread over the whole run
+	fix.Check(t, "kill-syscall-big", 6, func(rt *rapid.T) {
+		spec := gen.DataSpec{Recipe: &gen.Recipe{N: 40000, Cols: []gen.ColSpec{
+			{Name: "u", Prefix: "row-number-", Kind: gen.KUnique}, {Name: "a", Kind: gen.KMod, K: 7, Prefix: "v"}}}}
+		run(rt, &Case{Data: spec, Mode: "kill-syscall", Big: rapid.Bool().Draw(rt, "big"), When: rapid.IntRange(2, 400).Draw(rt, "when")})
+	})
 	fix.Check(t, "kill-delay", 15, func(rt *rapid.T) {
 		run(rt, &Case{Data: drawData(rt, 3100), Mode: "kill-delay", Big: rapid.Bool().Draw(rt, "big"), Frac: rapid.IntRange(0, 1100).Draw(rt, "frac")})
 	})
@@ -348,6 +391,11 @@ func TestThorough(t *testing.T) {
 	})
 	fix.Check(t, "kill-syscall", 200, func(rt *rapid.T) {
 		run(rt, &Case{Data: drawData(rt, 3100), Mode: "kill-syscall", Big: rapid.Bool().Draw(rt, "big"), When: rapid.IntRange(1, 60).Draw(rt, "when")})
+	})
+	fix.Check(t, "kill-syscall-big", 40, func(rt *rapid.T) {
+		spec := gen.DataSpec{Recipe: &gen.Recipe{N: 40000, Cols: []gen.ColSpec{
+			{Name: "u", Prefix: "row-number-", Kind: gen.KUnique}, {Name: "a", Kind: gen.KMod, K: 7, Prefix: "v"}}}}
+		run(rt, &Case{Data: spec, Mode: "kill-syscall", Big: rapid.Bool().Draw(rt, "big"), When: rapid.IntRange(2, 600).Draw(rt, "when")})
 	})
 	fix.Check(t, "kill-delay", 120, func(rt *rapid.T) {
 		run(rt, &Case{Data: drawData(rt, 3100), Mode: "kill-delay", Big: rapid.Bool().Draw(rt, "big"), Frac: rapid.IntRange(0, 1100).Draw(rt, "frac")})
